@@ -309,6 +309,18 @@ func (fr *Frame) invNames(li *loopInfo, st *State, phi map[*ssa.Phi]Value) map[s
 			}
 		}
 	}
+	// loop-carried variables of enclosing loops
+	for _, b := range doms {
+		for _, ins := range b.Instrs {
+			p, ok := ins.(*ssa.Phi)
+			if !ok {
+				break
+			}
+			if v, have := fr.env[p]; have && p.Comment != "" {
+				names[p.Comment] = SVal{V: v, T: p.Type()}
+			}
+		}
+	}
 	for _, ins := range li.header.Instrs {
 		p, ok := ins.(*ssa.Phi)
 		if !ok {
@@ -387,7 +399,7 @@ func (fr *Frame) buildCandidates(li *loopInfo, phiEntry map[*ssa.Phi]Value) []*C
 			if !resolvable {
 				continue
 			}
-			if want, ok := inv2loop(inv.Text); ok && want != li.id {
+			if inv.Loop != 0 && inv.Loop != li.ord {
 				continue
 			}
 			_ = mentionsHdr
